@@ -6,8 +6,16 @@
 
 mod protocol { pub use super::*; }
 use std::collections::VecDeque;
-mod cmp { }
-mod iter { }
+// core::cmp::min::<Timeout>: ordering of Timeout proved by Kani complete_timeout_order (inactive is the maximum)
+mod cmp {
+    use vstd::prelude::*;
+    use super::Timeout;
+    #[verifier::external_body]
+    pub fn min(a: Timeout, b: Timeout) -> (r: Timeout)
+        ensures r == a || r == b, (a.is_active_spec() || b.is_active_spec()) ==> r.is_active_spec(),
+    { unimplemented!() }
+}
+
 
 // ---- net/src/connection.rs `pub trait Callback` + ghost log ------------------------
 pub trait Callback {
@@ -287,5 +295,48 @@ proof fn lemma_sent_extends_step(s0: Seq<Seq<u8>>, mid: Seq<Seq<u8>>, after: Seq
     }
     assert forall|i: int| s0.len() <= i < after.len() implies (#[trigger] after[i]).len() <= 1400 by {
         if i < mid.len() { assert(after[i] == after.subrange(0, mid.len() as int)[i]); }
+    }
+}
+
+// VecDeque::back (no vstd spec in this build): last element or None
+fn vx_back<T>(q: &VecDeque<T>) -> (r: Option<&T>)
+    ensures q@.len() == 0 <==> r.is_none(), r.is_some() ==> *r.unwrap() == q@[q@.len() - 1],
+{
+    if q.len() == 0 { None } else { Some(&q[q.len() - 1]) }
+}
+// <Timeout as Default>::default() == Timeout::inactive()   (Kani complete_timeout_order)
+#[verifier::external_body]
+fn vx_timeout_default() -> (r: Timeout) ensures !r.is_active_spec(), { unimplemented!() }
+
+// stand-in for core::iter::{Once, once} (only constructed here; the Iterator impls are not under contract)
+mod iter {
+    use vstd::prelude::*;
+    pub struct Once<T> { pub v: Option<T> }
+    pub fn once<T>(t: T) -> (r: Once<T>) ensures r.v == Some(t), { Once { v: Some(t) } }
+}
+// ghost: warning counter of the WarnCallback adapter = counter of the wrapped sink
+impl<'a, W: Warn<Warning>> WarnCallback<'a, W> {
+    spec fn count(&self) -> nat { self.warn.count() }
+}
+impl<'a, W: Warn<Warning>> Warn<ProtocolWarning> for WarnCallback<'a, W> {
+    closed spec fn count(&self) -> nat { self.warn.count() }
+    // connection.rs: `self.warn.warn(Warning::Packet(warning))`
+    #[verifier::external_body]
+    fn warn(&mut self, warning: ProtocolWarning) { unimplemented!() }
+}
+// <ChunksIter as Clone>::clone (derived)
+#[verifier::external_body]
+fn vx_clone_iter<'a>(i: &ChunksIter<'a>) -> (r: ChunksIter<'a>) ensures r == *i, { unimplemented!() }
+
+// acknowledged sequence number after the receiver has walked the chunks of payload `d` starting from `ack`
+spec fn acks_after(d: Seq<u8>, ack: u16) -> u16
+    decreases d.len()
+{
+    if !chunk_fits(d) { ack } else {
+        let hl = chunk_hl(d);
+        let size = ch_size(d[0], d[1]) as int;
+        let rest = d.subrange(hl + size, d.len() as int);
+        let ack2 = if is_vital(d[0]) && ch_seq(d[1], d[2]) == (ack + 1) % 1024 { ch_seq(d[1], d[2]) } else { ack };
+        acks_after(rest, ack2)
     }
 }
